@@ -149,6 +149,7 @@ let handle (line : string) : string =
   | ["g"; s] -> "c=" ^ c_sig !xcache (str_of_hex s)
   | ["FR"; h] -> (match parse_frame (str_of_hex h) with None -> "~" | Some f -> show_frame f)
   | ["TH"; h] -> (match parse_throwable (str_of_hex h) with None -> "~" | Some (c, m) -> hex_of_str c ^ ":" ^ tok_of_ostr m)
+  | ["V"; h] -> "ok=" ^ b2s (layout_ok (str_of_hex h))
   | "U" :: _ -> "u=" ^ hex_of_str (mapping_uuid st.bytes)
   | "Z" :: mx :: script ->
     let mx = n_of_dec (String.sub mx 4 (String.length mx - 4)) in
